@@ -18,13 +18,17 @@ HARNESSES = [
     # the fixed table of harness.cpp evaluated by GCC's constant evaluator (UB-exact: an out-of-bounds access or a
     # signed overflow in constant evaluation makes THIS variant fail to compile, the other two still run)
     {"name": "ct", "src": "harness.cpp", "flags": ["-O2", "-DC18_CT=1"] + _COMMON},
+    # clang build: the front ends take their `#if defined(__clang__)` branch (compiler builtins = the C library for
+    # strlen, strcmp, strncmp, strchr, memchr, memcmp, memcpy, memmove, wmemcpy, wmemmove); everything else is the
+    # same templates seen by a second compiler
+    {"name": "clang", "src": "harness.cpp", "compiler": "clang++-14", "flags": ["-O1"] + _COMMON},
 ]
 
 RULE = ("cctype: every argument in [-1,255] x 14 functions; cwctype: 0..0x2FF, surrogate/BMP-end/plane-end windows, WEOF; "
         "cstring/cwchar: ALL strings of length <= L over {a, b, 0x80 (narrow) / -5 (wide)} (L = 4 quick for one-string and "
         "narrow two-string ops, 3 for wide two-string ops; thorough 5/4), all pairs, all counts 0..len+2, with exact-size and "
         "oversize destinations, elements after the terminator, unterminated arrays where C allows them; raw buffers over "
-        "{0, a, 0x80} for the mem* family; memmove: every (dest, src, count) inside buffers of length <= 8 (count <= 6); "
+        "{0, a, 0x80} for the mem* family; memmove: every (dest, src, count) placement inside buffers of length <= 12 with count <= 6, i.e. every overlap offset -6..6 (thorough: 16/8); "
         "seeded random long strings; a fixed table evaluated by the constant evaluator; "
         "non-trivial = distinct case line whose impl outcome is ok")
 
@@ -61,7 +65,7 @@ WCLASS = ["iswalnum", "iswalpha", "iswblank", "iswcntrl", "iswdigit", "iswgraph"
 
 
 def gen_family(out, wide, tier, rng):
-    quick = tier == "quick"
+    quick = tier in ("quick", "search")
     hi = -5 if wide else 128
     alpha = [97, 98, hi]
     names = {k: k for k in ["strlen", "strcmp", "strncmp", "strchr", "strrchr", "strspn", "strcspn", "strpbrk", "strstr",
@@ -157,14 +161,14 @@ def gen_family(out, wide, tier, rng):
             for ch in [0, 97, 255, 354, -1] if not wide else [0, 97, -5, 2147483647, -2147483648]:
                 out.append(f"{nm['memset']} {L([201 + k for k in range(size)])} {ch} {n}")
     # ---- memmove: every destination/source/count placement (all overlaps) in buffers up to 8
-    for size in ([0, 1, 2, 3, 5, 8] if quick else range(0, 10)):
+    for size in ([0, 1, 2, 3, 5, 8, 12] if quick else range(0, 17)):
         buf = [1 + k for k in range(size)]
-        for n in range(0, min(size, 6) + 1):
+        for n in range(0, min(size, 6 if quick else 8) + 1):
             for d in range(0, size - n + 1):
                 for s in range(0, size - n + 1):
                     out.append(f"{nm['memmove']} {L(buf)} {d} {s} {n}")
     # ---- seeded random longer inputs
-    R = 150 if quick else 4000
+    R = 150 if tier == "quick" else (1500 if tier == "search" else 4000)
 
     def rstr(maxlen, al):
         return [rng.choice(al) for _ in range(rng.randint(0, maxlen))]
@@ -220,7 +224,7 @@ def gen_family(out, wide, tier, rng):
 
 def gen(tier, rng):
     out = []
-    quick = tier == "quick"
+    quick = tier in ("quick", "search")
     # ---- <cctype>: the whole argument range
     for f in CLASS:
         for c in range(-1, 256):
